@@ -633,6 +633,31 @@ func ruleC15Client(c *Ctx) {
 			}
 		}
 	}
+	// the public operations hand operation()'s verdict up unchanged: an error (io.EOF of a short
+	// read included - it is also what a closed connection reports for every later request) is never
+	// turned into success on the way out
+	for _, m := range []string{"ReadAt", "WriteAt", "Sync", "Unmap", "Ping"} {
+		fn := c.P.Fn(fCli + m)
+		if fn == nil {
+			continue
+		}
+		R := NewRenderer(fn)
+		ops := CallsTo(fn, fCli+"operation")
+		if len(ops) != 1 {
+			c.Bad(rule, FnName(fn)+" | one operation per call", c.P.Pos(fn.Pos()), fmt.Sprintf("%d calls of operation", len(ops)), nil)
+			continue
+		}
+		want := callRender(R, ops[0]) + "#1"
+		ei := errResultIndex(fn)
+		for _, r := range Returns(fn) {
+			key := FnName(fn) + " | returns operation's own error"
+			if ei >= 0 && ei < len(r.Results) && R.V(r.Results[ei]) == want {
+				c.OK(rule, key, c.P.InstrPos(r), want, false)
+			} else if ei >= 0 && ei < len(r.Results) {
+				c.Bad(rule, key, c.P.InstrPos(r), "returns "+R.V(r.Results[ei])+" as its error, not "+want, nil)
+			}
+		}
+	}
 	// a request is completed only with a verdict: the waiter in operation() decides by the
 	// message's Type, so every send on a message's Complete channel is preceded, in the same
 	// function, by a store of that message's Type (TypeError, or the reply's type)
@@ -996,6 +1021,13 @@ func rpcServerRule(c *Ctx, rule string) {
 		if len(rd) != 1 || len(wr) != 1 {
 			c.Bad(rule, FnName(rw)+" | structure", "", fmt.Sprintf("expected one Wire.Read and one reply write per round, found %d / %d", len(rd), len(wr)), nil)
 		} else {
+			// whatever is done with a request that was read, the next one is read only after a reply
+			// was written (a request refused before the dispatch included)
+			if ws := (Query{Fn: rw, Start: rd[0], IsSite: func(in ssa.Instruction) bool { return in == rd[0] }, Gen: func(in ssa.Instruction) bool { return in == wr[0] }}).Run(); len(ws) > 0 {
+				c.Bad(rule, FnName(rw)+" | every request read is answered", c.P.InstrPos(rd[0]), "a path reads the next request without having written a reply to the one before (its caller waits until the deadline, which then poisons the connection)", c.witness(ws[0]))
+			} else {
+				c.OK(rule, FnName(rw)+" | every request read is answered", c.P.InstrPos(rd[0]), "Wire.Read is reached again only through the reply write", true)
+			}
 			msg := R.V(rd[0].(*ssa.Call)) + "#0"
 			table := []struct{ typ, handler string }{{"TypeRead", "handleRead"}, {"TypeWrite", "handleWrite"}, {"TypePing", "handlePing"}, {"TypeSync", "handleSync"}, {"TypeUnmap", "handleUnmap"}}
 			for _, e := range table {
